@@ -31,6 +31,17 @@ def valid_traffic(rng, tg, head):
     for c in rng.sample([c for c in mutators.mutants(tg, head, rng, tags=('struct',)) if c['expect'] == 'reject'], 3):       # STRUCTURALLY invalid (the property's list); rule violations during a bulk download roll the node back by design (C09)
         out.append(('bad-block:' + c['label'], M.MessageHeader(0, 5, 0, 1).serialize() + M.DataMessage(M.DATA_BLOCK, c['block']).serialize()))
     out.append(('bad-tx', M.MessageHeader(0, 6, 0, 1).serialize() + M.DataMessage(M.DATA_TRANSACTION, gen.g_tx(rng, nin=1, nout=1)).serialize()))
+    # structurally invalid transactions of every kind the stand-alone validation distinguishes
+    from skepticoin.datatypes import Output, Transaction
+    MAXS = 2_099_999_986_350_000
+    for nm, mk in (('zero-value', lambda t: [Output(0, t.outputs[0].public_key)]),
+                   ('over-limit', lambda t: [Output(MAXS + 1, t.outputs[0].public_key)]),
+                   ('sum-over-limit', lambda t: [Output(MAXS, t.outputs[0].public_key), Output(MAXS, t.outputs[0].public_key)]),
+                   ('huge', lambda t: [Output(2 ** 64 - 1, t.outputs[0].public_key)]),
+                   ('no-outputs', lambda t: [])):
+        t = gen.g_tx(rng, nin=1, nout=1)
+        bt = Transaction(inputs=list(t.inputs), outputs=mk(t))
+        out.append(('bad-tx:' + nm, M.MessageHeader(0, 6, 0, 1).serialize() + M.DataMessage(M.DATA_TRANSACTION, bt).serialize()))
     out.append(('random-block', gen.g_msg_header(rng).serialize() + M.DataMessage(M.DATA_BLOCK, gen.g_block(rng, ntx=2)).serialize()))
     return out
 
